@@ -17,7 +17,7 @@ import re
 from sa import ir, cfg, logic, facts, valueflow
 from sa.ir import fmt, walk, short
 from sa.logic import Not
-from .common import callgraph, elem_calls
+from .common import callgraph, elem_calls, const_int
 from . import C04
 
 DL_EXC = "nitro::dl::exception"
@@ -115,6 +115,30 @@ def run(ctx):
             continue
         a0 = ir.unwrap(init["args"][0])
         ctx.check(isinstance(a0, dict) and a0.get("k") == "call" and (a0.get("name") or "") == "dlopen", "R19.2", f, "handle-from-dlopen:" + tag, "the handle is built from %s" % fmt(a0), f)
+        # the mode: complete binding at open (every diagnostic of the loader surfaces as the exception of THIS call) and a
+        # close that really closes (no NODELETE), of a library that is really loaded (no NOLOAD)
+        if isinstance(a0, dict) and a0.get("k") == "call" and (a0.get("name") or "") == "dlopen" and len(a0.get("args", [])) >= 2:
+            bits = {}
+            for g in prog.find("vwit::rtld_bits"):
+                for _, _, e in g.roots():
+                    for r in walk(e["expr"]):
+                        if r.get("k") == "ref" and r.get("const_init") is not None:
+                            bits[r["decl"].split("::")[-1]] = const_int(r)
+            mode = const_int(a0["args"][1])
+            if len(bits) < 4 or any(v is None for v in bits.values()):
+                ctx.broken("R19.2", f, "open-mode:" + tag, "the platform's RTLD_* values are not available from the witness unit (%s)" % bits, f)
+            elif mode is None:
+                ctx.broken("R19.2", f, "open-mode:" + tag, "the mode argument %s of dlopen is not a constant expression" % fmt(a0["args"][1]), f)
+            else:
+                why = []
+                if not mode & bits["rtld_now"]:
+                    why.append("RTLD_NOW is not set: with lazy binding a library that references a function nobody provides opens without an error, the loader's diagnostic never becomes the "
+                               "dl exception and the first call through the unresolved reference kills the process")
+                if mode & bits["rtld_nodelete"]:
+                    why.append("RTLD_NODELETE is set: the dlclose issued when the last owner dies is ignored, the library is never closed")
+                if mode & bits["rtld_noload"]:
+                    why.append("RTLD_NOLOAD is set: a library that is not resident already is not opened")
+                ctx.check(not why, "R19.2", f, "open-mode:" + tag, "dlopen is called with mode %s (= %#x): %s" % (fmt(a0["args"][1]), mode, "; ".join(why)), f, why_ok="%s = %#x" % (fmt(a0["args"][1]), mode))
         if len(init["args"]) < 2:
             ctx.bad("R19.2", f, "deleter-present:" + tag, "the shared_ptr has no deleter: the library is never closed (and `delete` on a void* handle is undefined)", f)
             continue
